@@ -43,7 +43,7 @@ func (f *Oddp) Call(s *slip.Scope, args slip.List, depth int) slip.Object {
 	slip.CheckArgCount(s, depth, f, args, 1, 1)
 	switch ta := args[0].(type) {
 	case slip.Fixnum:
-		if ta%2 == 1 {
+		if ta%2 != 0 { // the remainder of a negative odd fixnum is -1
 			return slip.True
 		}
 	case slip.Octet:
